@@ -190,6 +190,29 @@ class Model(SOCModel):
                                                         affine_aux[s],
                                                         1, affine_in[s])
                             more_exp.append(exp_cone_constr)
+                    elif constr.xtype in 'XL' and constr.params is not None:
+                        # summed forms exp(x).sum(axis) and log(x).sum(axis):
+                        # one auxiliary variable per term, their sum is
+                        # compared with the other side
+                        affine_out = constr.affine_out * (1/constr.multiplier)
+                        affine_in = constr.affine_in
+                        aux_var = self.dvar(affine_in.shape, aux=True)
+                        aux_sum = aux_var.to_affine().sum(axis=constr.params[1])
+                        ns = affine_in.size
+                        affine_in = affine_in.reshape(ns)
+                        affine_aux = aux_var.to_affine().reshape(ns)
+                        if constr.xtype == 'X':
+                            self.aux_constr.append(aux_sum + affine_out <= 0)
+                            for s in range(ns):
+                                atom_exp.append(ExpConstr(constr.model,
+                                                          affine_in[s],
+                                                          affine_aux[s], 1))
+                        else:
+                            self.aux_constr.append(aux_sum - affine_out >= 0)
+                            for s in range(ns):
+                                atom_exp.append(ExpConstr(constr.model,
+                                                          affine_aux[s],
+                                                          affine_in[s], 1))
                     elif constr.xtype == 'X':
                         affine_out = constr.affine_out * (1/constr.multiplier)
                         exprs_list = rso_broadcast(constr.affine_in, affine_out)
